@@ -1,6 +1,6 @@
 import DvcData.Model.Status
 /-
-  Model of `hashfile/transfer.py`: `_add`, `_do_transfer` (with the F2/F3 repairs) and `transfer`.
+  Model of `hashfile/transfer.py`: `_add`, `_do_transfer` (with the F2/F3/F6 repairs) and `transfer`.
   The destination is kept as the *trace* of arrivals (initial contents ++ uploads in order), so that
   "the destination at crash cut k" is `dest.take k`.
 -/
@@ -44,7 +44,7 @@ def stepDir (cx : Ctx Oid) (s : St Oid) (d : Oid) : St Oid :=
   if df ≠ [] ∨ entries.any (· ∈ s.failed) then
     { s with dest, pending, failed := s.failed ++ df ++ [d] }
   else if entries.any (· ∈ cx.missing) then
-    { s with dest, pending }
+    { s with dest, pending, failed := s.failed ++ [d] }
   else if cx.fails d then
     { s with dest, pending, failed := s.failed ++ [d] }
   else
